@@ -640,7 +640,8 @@ def _c17_isolation_chunk(arg):
         ops = []
         for _ in range(rng.randint(1, 5)):
             nodes = [d for d in sa.descendants if isinstance(d, TexNode)]
-            op = rng.choice(['delete', 'rename', 'append', 'args', 'parse-b', 'parse-a'])
+            op = rng.choice(['delete', 'rename', 'append', 'args', 'parse-b', 'parse-a', 'parse-skip',
+                             'edit-arg'])
             ops.append(op)
             try:
                 if op == 'delete' and nodes:
@@ -654,6 +655,20 @@ def _c17_isolation_chunk(arg):
                 elif op == 'args' and nodes:
                     n = rng.choice(nodes)
                     n.args.append('{leak}')
+                elif op == 'parse-skip':
+                    # a parse with options must not leave anything behind
+                    for nm in ('foobar', 'zz', 'a'):
+                        try:
+                            impl.parse(rng.choice([a, b]), 0, (nm,))
+                        except BaseException:  # noqa
+                            pass
+                elif op == 'edit-arg' and nodes:
+                    n = rng.choice(nodes)
+                    if len(n.args) >= 1:
+                        try:
+                            n.args[0].string = 'EDITED'
+                        except BaseException:  # noqa
+                            pass
                 elif op == 'parse-b':
                     if _obs(impl.parse(b)) != refb:
                         r.fail(Failure('C17', 'earlier-parse-or-edit-influences-parse',
@@ -779,7 +794,16 @@ def oracle_C17(tier):
     docs += list(gen.random_strings(rng, gen.KIND_ALPHABET, n, 3, 6))
     for r in pmap(_c17_forms_chunk, [(c, str(i)) for i, c in enumerate(chunked(docs, NPROC * 2))]):
         res.merge(r)
+    # documents whose parse builds nodes outside the token stream (bare-token
+    # arguments are coerced through TexGroup.parse) and documents with names a
+    # skip_envs option may mention: hidden shared state would show here
+    special = ['\\textbf a and \\textbf{a}', '\\label x \\label x', '\\section a\\section a',
+               '\\def\\foo{x} \\textbf\\foo', '\\textbf a', '$\\textbf x \\in [0,1)$',
+               '\\begin{foobar} \\textbf{x} $y$ \\end{foobar} tail',
+               '\\begin{zz}\\x{a}\\end{zz}\\begin{a}\\begin{zz}${\\end{zz}\\end{a}']
+    docs = special + docs
     pairs = [(docs[i], docs[(i * 7 + 3) % len(docs)]) for i in range(0, min(len(docs), n * 2))]
+    pairs += [(a, b) for a in special for b in special]
     for r in pmap(_c17_isolation_chunk, [(c, str(i)) for i, c in enumerate(chunked(pairs, NPROC * 2))]):
         res.merge(r)
     run_hashseeds(8 if tier == 'quick' else 64, res)
